@@ -169,3 +169,89 @@ Definition boolv_ob (xs : list (option bool)) : list Z :=
 Definition boolp (xs : list bool) : list Z :=
   c_bool (any_plain xs) ++ c_bool (all_plain xs) ++ c_opt c_bool (first xs) ++ c_opt c_bool (last xs) ++
   c_nat (fold_left (fun acc x => if Bool.eqb x true then S acc else acc) xs 0%nat).
+
+(* ==== audit additions (notes/C11.md "Audit matrix"): Number helpers, vfold2 / vapply, to / fromas =========== *)
+From Tevec Require Import Model.AggNumber.
+From Tevec Require Model.Cast Run.RunC15.
+
+(* f64::floor / f64::ceil (number.rs:221-229) on Coq's binary64: a finite float with a non-negative exponent is an
+   integer already; otherwise |x| < 2^52, the integer floor is exact in binary64 (Proofs/Audit11Float.v proves
+   that the result is the mathematical floor).  floor(x) in [0, 1) keeps the sign of x (-0.0 stays -0.0). *)
+Definition f64_floorZ (f : float) : Z :=
+  match Prim2SF f with
+  | S754_finite s m e =>
+      let mz := Zpos m in
+      if (0 <=? e)%Z then (if s then - (mz * 2 ^ e) else mz * 2 ^ e)%Z
+      else let d := (2 ^ (- e))%Z in
+           if s then (- ((mz + d - 1) / d))%Z else (mz / d)%Z
+  | _ => 0%Z
+  end.
+Definition f64_floor (x : float) : float :=
+  match Prim2SF x with
+  | S754_finite s m e =>
+      if (0 <=? e)%Z then x
+      else let z := f64_floorZ x in
+           if (z =? 0)%Z then (if s then neg_zero else zero) else f64_ofZ z
+  | _ => x
+  end.
+Definition f64_ceil (x : float) : float := (- f64_floor (- x))%float.
+Definition NumRoundF64 : NumRound float := {| nfloor := f64_floor; nceil := f64_ceil |}.
+
+Section NumGroup.
+  Context {A : Type} {NA : Num A} {DN : IsNone A A} {NR : NumRound A}.
+  Variable encA : A -> list Z.
+  (* number: min_with(a,b) max_with(a,b) floor(a) ceil(a) abs(a); n_add(a,b,&mut 3) -> value, n; n_prod likewise;
+     fold n_add from 0 over xs -> value, n; fold n_prod from 1 -> value, n; Kahan fold over xs -> sum, compensation *)
+  Definition g_number (a b : A) (xs : list A) : list Z :=
+    encA (min_with a b) ++ encA (max_with a b) ++ encA (number_floor a) ++ encA (number_ceil a) ++
+    encA (number_abs a) ++
+    (let r := n_add a b 3 in encA (fst r) ++ c_nat (snd r)) ++
+    (let r := n_prod a b 3 in encA (fst r) ++ c_nat (snd r)) ++
+    (let r := n_add_fold nzero xs in encA (fst r) ++ c_nat (snd r)) ++
+    (let r := n_prod_fold none xs in encA (fst r) ++ c_nat (snd r)) ++
+    (let r := kh_fold xs in encA (fst r) ++ encA (snd r)).
+End NumGroup.
+Definition num_f := g_number (NA := NumF64) (DN := IsNoneF64) (NR := NumRoundF64) c_float.
+Definition num_z := g_number (NA := AggNumZ) (DN := IsNoneZ) (NR := NumRoundZ) c_int.
+
+(* to / fromas: the casts are C15's (Model/Cast.v number_to = as_nn, instance Run/RunC15.v XF)
+   cells: x.to::<i32>() x.to::<i64>() x.to::<usize>() x.to::<f64>() x.to::<f32>()  i32::fromas(x) i64::fromas(x)
+          k.to::<f64>() (i64) k.to::<i32>() (i64, wraps) k.to::<usize>() (i64, wraps)  f64::fromas(k) f32::fromas(k)
+          k32.to::<i64>() k32.to::<f64>() f64::fromas(k32)   with k32 = k wrapped to i32 *)
+Definition cast_of (s u : Cast.nt) : Cast.nval (F := float) s -> Cast.nval (F := float) u := Cast.number_to RunC15.XF s u.
+Definition num_casts (x : float) (k : Z) : list Z :=
+  let k32 : Z := number_to (cast_of Cast.I64 Cast.I32) k in
+  c_int (number_to (cast_of Cast.F64 Cast.I32) x) ++ c_int (number_to (cast_of Cast.F64 Cast.I64) x) ++
+  c_int (number_to (cast_of Cast.F64 Cast.Usize) x) ++ c_float (number_to (cast_of Cast.F64 Cast.F64) x) ++
+  c_float (number_to (cast_of Cast.F64 Cast.F32) x) ++
+  c_int (number_fromas (cast_of Cast.F64 Cast.I32) x) ++ c_int (number_fromas (cast_of Cast.F64 Cast.I64) x) ++
+  c_float (number_to (cast_of Cast.I64 Cast.F64) k) ++ c_int k32 ++ c_int (number_to (cast_of Cast.I64 Cast.Usize) k) ++
+  c_float (number_fromas (cast_of Cast.I64 Cast.F64) k) ++ c_float (number_fromas (cast_of Cast.I64 Cast.F32) k) ++
+  c_int (number_to (cast_of Cast.I32 Cast.I64) k32) ++ c_float (number_to (cast_of Cast.I32 Cast.F64) k32) ++
+  c_float (number_fromas (cast_of Cast.I32 Cast.F64) k32).
+
+(* vfold2 with a callback that is neither symmetric in its two arguments nor in the order of the pairs:
+   acc -> (count + 1, 3 * acc + a - 2 * b);  vapply with state (calls, running sum, last value seen) *)
+Section Fold2Group.
+  Context {T T2 : Type} {DT : IsNone T float} {DT2 : IsNone T2 float}.
+  Definition g_fold2 (xs : list T) (ys : list T2) : list Z :=
+    let r := vfold2 (fun (acc : nat * float) a b =>
+                       (S (fst acc), (3 * snd acc + unwrap a - 2 * unwrap b)%float)) (0%nat, zero) xs ys in
+    c_nat (fst r) ++ c_float (snd r).
+  Definition g_vapply (xs : list T) : list Z :=
+    let r := vapply (fun (st : nat * float * float) v => (S (fst (fst st)), (snd (fst st) + v)%float, v))
+                    (0%nat, zero, nan) xs in
+    c_nat (fst (fst r)) ++ c_float (snd (fst r)) ++ c_float (snd r).
+End Fold2Group.
+Definition fold2_ff := g_fold2 (DT := IsNoneF64) (DT2 := IsNoneF64).
+Definition fold2_oo := g_fold2 (DT := IsNoneOptF64) (DT2 := IsNoneOptF64).
+Definition fold2_fo := g_fold2 (DT := IsNoneF64) (DT2 := IsNoneOptF64).
+Definition vapply_f := g_vapply (DT := IsNoneF64).
+Definition vapply_o := g_vapply (DT := IsNoneOptF64).
+
+(* the sign of a zero extreme (cells carry values, not the sign of zero): vmin vmax as 1 = sign bit set / 0 / null;
+   the witness of C11_perm_extrema_bitwise_refuted, replayed on the code on every run *)
+Definition sign_cell (o : option float) : list Z :=
+  c_opt (fun m => c_bool (match Prim2SF m with S754_zero s => s | S754_infinity s => s | S754_finite s _ _ => s | S754_nan => false end)) o.
+Definition zero_sign_f (xs : list float) : list Z :=
+  sign_cell (vmin (NA := NumF64) (DT := IsNoneF64) xs) ++ sign_cell (vmax (NA := NumF64) (DT := IsNoneF64) xs).
